@@ -19,14 +19,15 @@ def note_alloc(e, n, what):
 
 
 @model(r'(?:^|::)Vec::new$|VecDeque::new$|<(std::vec::)?Vec<.*> as Default>::default$|^Vec::<.*>::new$')
-def _(e, c, a): return RVec([], 'VecDeque' if 'VecDeque' in c else 'Vec')
+def _(e, c, a): return RVec([], 'VecDeque' if 'VecDeque' in strip_generics(c) else 'Vec')
 
 
 @model(r'(?:^|::)Vec::with_capacity$|VecDeque::with_capacity$|BytesMut::with_capacity$|String::with_capacity$')
 def _(e, c, a):
-    note_alloc(e, a[0], strip_generics(c).strip())
-    if 'String' in c: return RStr('')
-    return RVec([], 'VecDeque' if 'VecDeque' in c else 'Vec')
+    sc = strip_generics(c).strip()
+    note_alloc(e, a[0], sc)
+    if sc.endswith('String::with_capacity'): return RStr('')
+    return RVec([], 'VecDeque' if 'VecDeque' in sc else ('Bytes' if 'BytesMut' in sc else 'Vec'))
 
 
 @model(VEC + r'reserve(_exact)?$|BytesMut::reserve$|String::reserve$')
@@ -185,7 +186,8 @@ def _(e, c, a):
 def _(e, c, a):
     v = un(a[0])
     if isinstance(v, RStr): return RVec([Cell(b) for b in sval(v).encode()])
-    return RVec([Cell(e.clone_value(x.v)) for x in deref_vec(v).cells])
+    dv = deref_vec(v)
+    return RVec([Cell(e.clone_value(x.v)) for x in dv.cells], 'Vec', dv.text)
 
 
 def range_bounds(e, r, n):
